@@ -916,11 +916,15 @@ def Selecting.totalPage (s : Selecting) (sh : Shared D L) : Outcome Nat :=
   | .panic p => .panic p
   | .outOfFuel => .outOfFuel
 
+/-- the candidate index addressed by choosing `n` on the current page:
+    `page_no.saturating_mul(candidates_per_page).saturating_add(n)` (`usize`).  A saturated index is
+    `usize::MAX`, which no `Vec` or `str` can reach, so it is out of range like any other. -/
+def Selecting.offset (s : Selecting) (sh : Shared D L) (n : Nat) : Nat :=
+  min (s.pageNo * sh.options.candidatesPerPage + n) (2 ^ 64 - 1)
+
 /-- `Selecting::select(n)`: returns the (possibly updated) selecting state too -/
 def Selecting.select (s : Selecting) (sh : Shared D L) (n : Nat) : Outcome (Selecting × Shared D L × Trans) :=
-  let offset := s.pageNo * sh.options.candidatesPerPage + n
-  if offset ≥ 2 ^ 64 then .panic "select-offset-overflow"
-  else
+  let offset := Selecting.offset s sh n
   let finish (sh : Shared D L) (sym : Sym) : Outcome (Selecting × Shared D L × Trans) :=
     let r := match s.action with
       | .insert => sh.com.insert sym
